@@ -42,6 +42,10 @@ Definitions of C18Reach.lean (+ Lemmas/HumanReach.lean) — `StoresOK`, `HumanRe
 `pathArgTail`, `nameTail`, `joinPathD`, … — are explained at the head of the section "the round trip for CHAINS OF
 MODIFIERS" below.
 
+Continued in C18HeadlineMore3.lean (headline theorems over C18More2.lean: the constructor with hypotheses on the input
+string only — any spelling / human form / readable form / canonical —, chains of modifiers that start at the constructor,
+`human_repr()` stable under the round trip, every class of escape classified; GAPS 2(d), 2(e), 6, 8 below).
+
 Fixes followed since this file was first written: 60dbf1e (an IDN host whose A-label ends in a digit is decoded),
 e21485a (`build` lower-cases the scheme, so an upper-case scheme round-trips: `C18_headline_roundtrip_upper_scheme`).
 -/
@@ -788,8 +792,8 @@ GAPS:
     hosts): NFKC check of `split_url` (C18_headline_roundtrip_fails_for).  Proved only under the proviso
     "the NFKC check accepts the shown authority"; no characterisation of WHICH user/password texts pass
     (it depends on the `unicodedata` oracle).
- 2. PARTLY CLOSED by the theorems of C18More.lean and C18Reach.lean (all under the NFKC proviso of item 1), family by
-    family:
+ 2. PARTLY CLOSED by the theorems of C18More.lean, C18Reach.lean and C18More2.lean (all under the NFKC proviso of item 1),
+    family by family:
     (a) empty path with an authority — CLOSED by C18_roundtrip_empty_path, see C18_headline_roundtrip_empty_path
         (`build` without a path, any user / password, port, query pairs, fragment: shown with "/", `==` holds);
     (b) a user given as "" next to a password, an empty password — CLOSED by C18_roundtrip_empty_user /
@@ -804,7 +808,27 @@ GAPS:
         the encodings of decoded components" (C18_roundtrip_constructor, see C18_headline_roundtrip_constructor;
         they hold for every string made of the encodings: C18_roundtrip_constructor_canonical, C18More.lean, not
         restated here); FALSE without them (C18_headline_roundtrip_fails_for_constructor:
-        `URL("http://example.com/a%2Fb")`, a literal ';' in the query, `%FF`) — not "built from decoded components";
+        `URL("http://example.com/a%2Fb")`, a literal ';' in the query, `%FF`) — not "built from decoded components".
+        NOW ALSO CLOSED with hypotheses on the INPUT STRING only, by C18_constructor_any_spelling,
+        C18_constructor_human_text, C18_constructor_readable_text, C18_constructor_canonical_stores_ok (C18More2.lean), see
+        C18_headline_constructor_any_spelling / _human_text / _readable_text / _canonical_stores_ok
+        (C18HeadlineMore3.lean).  Proved: for `s = scheme://[usr[:pw']@]D[:port]/rp[?rq][#rf]` whose pieces are ANY
+        spelling (literal, escaped, mixed) of decoded components, `URL(s)` succeeds, satisfies `StoresOK` (so the accessor
+        conditions above / `Stores` are discharged) and `URL(URL(s).human_repr()) == URL(s)`; when `s` is in human form
+        (its pieces are what `human_quote` gives: `HumanPieces`), moreover `URL(s).human_repr() == s` and
+        `URL(URL(s).human_repr())` IS `URL(s)`, with no proviso on the output; the readable form (decoded texts written
+        literally, every character printable, not '%', not reserved in its position: `R5.Readable`) and the canonical
+        fully-encoded form are special cases.  Hypotheses: a LOWER-case valid scheme written in `s`; the host written as
+        `human_repr()` shows it (`HostKind e h H D`, `D` written; for the canonical form `H`); port ≤ 65535; the path
+        written ROOTED ("/" ++ rp — an empty written path, `URL("http://host")`, is not of this form) and the decoded
+        path free of dot segments; decoded texts without lone surrogates, decoded and written user not ""; the spelling
+        conditions — `R5.SpellOpt` for user / password (none of TAB LF CR `# / : ? @ [ ]` literal,
+        `REQUOTER(usr) == QUOTER(user)`), `PATH_REQUOTER("/" ++ rp) == PATH_QUOTER("/" ++ p)` with no literal '?', '#',
+        TAB, LF, CR, `QUERY_REQUOTER(rq)` == the `k=v&…` text of the pairs with no literal '#', TAB, LF, CR,
+        `FRAGMENT_REQUOTER(rf) == FRAGMENT_QUOTER(f)` with no TAB, LF, CR — these are EQUATIONS between quoter outputs,
+        not a syntactic description of the admissible spellings (item 9); the NFKC proviso on the INPUT's authority (and,
+        in the general form, on the output).  The query condition is NEEDED: `URL("http://example.com/?k=v%20w")` does
+        not round-trip (shown `?k=v w`, read back `k=v+w`; C18_headline_constructor_any_spelling_example);
     (e) URLs made by modifiers — CLOSED (except `join`; see the end of this item) for with_fragment, with_query,
         with_user and `u / s` (ONE segment text
         without a leading "/" and without '.', on a non-empty path): C18_roundtrip_with_fragment / _with_query /
@@ -830,9 +854,18 @@ GAPS:
         (`UserOK`), shown host, port; when `A` is not ASCII the NFKC check of `build` itself must accept it — not for an
         arbitrary raw authority text; update_query only with a sequence of (key, value) pairs; with_query / extend_query
         with an argument that renders to the text of decoded pairs (a STRING outside the `k=v&…` form does not: item (c));
-        chains that START at the constructor `URL(s)` need `StoresOK` of the start (`Stores`: item (d), plus its side
-        conditions) and then
-        C18_headline_modifiers_preserve_stores step by step — `HumanReach` itself starts at `build`;
+        chains that START at the constructor `URL(s)` — CLOSED by C18_reachC_stores,
+        C18_roundtrip_reachable_from_constructor (C18More2.lean), see C18_headline_roundtrip_reachable_from_constructor,
+        C18_headline_reachable_from_constructor_stores, C18_headline_reachable_from_constructor_example
+        (C18HeadlineMore3.lean), for `HumanReachC` = `HumanReach` extended by two more starts: `URL(s)` for `s` in HUMAN
+        FORM (the hypotheses of C18_headline_constructor_human_text) and for the CANONICAL string of the encodings; a
+        chain that starts at `URL(s)` for a general any-spelling `s` is not a member of `HumanReachC`, but
+        C18_headline_constructor_any_spelling gives `StoresOK` of the start and
+        C18_headline_modifiers_preserve_stores then applies step by step; a chain that starts at an ARBITRARY `URL(s)` is
+        outside (and the round trip is false there: item (d)).  Also NEW: the round trip can be ITERATED —
+        `v = URL(u.human_repr())` satisfies `StoresOK` for the same decoded components and `v.human_repr() ==
+        u.human_repr()` (C18_human_repr_stable, see C18_headline_human_repr_stable), under the NFKC proviso.  `join` and
+        `build(authority=<arbitrary raw text>)` REMAIN OPEN (C18More2.lean says so too);
     (f) schemes with upper case — CLOSED by C18_roundtrip_upper_scheme, see C18_headline_roundtrip_upper_scheme
         (unconditional since fix e21485a: `build` stores the scheme lower-case; the URL built with `SC` is the URL
         built with `SC.lower()`);
@@ -855,8 +888,22 @@ GAPS:
     yarl's parser reads the literal text back to an equal URL (C18_headline_minimal_escaping_fails_for_userinfo;
     universally: C18_headline_minimal_escaping_relaxed_roundtrip, from C18_roundtrip_relaxed) — for them the
     sentence "Only characters that would change the parse in their position … are escaped" is FALSE for yarl's own
-    parser (an RFC 3986 parser needs the '@' escapes).  '%' and non-printable characters are escaped by the
-    property's own wording; no minimality statement is made about them.
+    parser (an RFC 3986 parser needs the '@' escapes).  SHARPENED by C18_overescape_exact (C18More2.lean), see
+    C18_headline_overescape_exact (C18HeadlineMore3.lean): over the 26 generated pairs "leaving the character literal does
+    not change the parse of the witness" holds IF AND ONLY IF the pair is one of the three (an `iff`, both backends, by
+    computation on the witness URLs with the demonstration oracle).  '%' and non-printable characters are escaped by the
+    property's own wording; what was missing — a statement on WHEN these escapes are needed for the parse — is now
+    PARTLY there (C18More2.lean, see C18HeadlineMore3.lean): (i) '%': on the three witness texts "a%41", "a%zz", "a%4"
+    in each of the six positions, the literal '%' changes the parse for "a%41" and does not for the other two
+    (C18_percent_escape_needed, see C18_headline_percent_escape_needed) — witnesses only, NOT a universal "needed iff
+    followed by two hex digits"; (ii) non-printable characters: on the sample NUL SOH BEL BS TAB LF VT FF CR SO ESC US
+    DEL U+200B, in each position, the literal character changes the parse iff it is TAB, LF or CR
+    (C18_nonprintable_escape_classified, see C18_headline_nonprintable_escape_classified) — a sample, by computation,
+    the other C0 controls are not enumerated; UNIVERSALLY for non-ASCII characters: `URL(…)` and `build` never consult
+    `isprintable`, so for EVERY table used for showing — also one that escapes no non-ASCII character — the shown text
+    of every URL of the family of C18_headline_roundtrip reads back to an equal URL (NFKC proviso)
+    (C18_nonprintable_nonascii_escapes_not_needed, see C18_headline_nonprintable_nonascii_escapes_not_needed).  (i) and
+    (ii) are computed with an INSTRUMENTED COPY of `human_repr()` (`R5.humanReprLit`), see item 10.
  7. Lone surrogates: `human_quote` raises (UnicodeEncodeError → modelled as valueError) — excluded by
     hypothesis; C19 covers the error kind.
  8. (new) Side conditions of the closing theorems.  `Stores` (master, modifiers) is a hypothesis; it is discharged
@@ -873,5 +920,26 @@ GAPS:
     non-vacuity chain (C18_headline_reachable_chain_example) is evaluated with the demonstration oracle
     `HumanReach.demoIdn`.  The counterexamples of 2(c), 2(d) and the minimality computations of
     item 6 are evaluated with the demonstration oracle `HumanMore.demo`.
+    UPDATE (C18More2.lean, see C18HeadlineMore3.lean): `Stores` / `StoresOK` is NOW ALSO discharged for the constructor
+    from hypotheses on the INPUT string alone — any spelling, human form, readable form, canonical form (item 2(d)) — and
+    for chains that start there (`HumanReachC`, item 2(e)); and `StoresOK` is kept by the round trip itself
+    (C18_headline_human_repr_stable).  The non-vacuity instances (C18_headline_constructor_any_spelling_example,
+    C18_headline_reachable_from_constructor_example) are evaluated with `HumanMore.demo` / `HumanReach.demoIdn`.
+ 9. NEW (side conditions introduced by the constructor theorems of C18More2.lean, item 2(d)).  The general form
+    C18_headline_constructor_any_spelling takes the SPELLING CONDITIONS as hypotheses: equations between quoter outputs
+    (`REQUOTER(usr) == QUOTER(user)`, `PATH_REQUOTER("/" ++ rp) == PATH_QUOTER("/" ++ p)`, `QUERY_REQUOTER(rq)` == the
+    `k=v&…` text, `FRAGMENT_REQUOTER(rf) == FRAGMENT_QUOTER(f)`) plus the exclusion of a few literal characters.  They
+    are discharged for the human form (`HumanPieces`, itself five equations `human_quote(x) = piece`), the readable form
+    (a condition on the characters of the text + the `isprintable` oracle) and the canonical form; NO theorem
+    characterises syntactically WHICH mixed spellings satisfy them (one mixed instance is computed:
+    C18_headline_constructor_any_spelling_example).  All constructor theorems require the written scheme in LOWER case
+    (`ValidScheme`; an upper-case written scheme is lower-cased by `URL(…)` — not restated for these theorems) and a
+    ROOTED written path; the human-form / readable-form theorems carry the NFKC proviso on the INPUT's authority.
+10. NEW (item 6 (i), (ii)).  `R5.humanReprLit` / `R5.changesParseLit` (C18More2.lean) are an INSTRUMENTED COPY of the
+    model's `human_repr()` ("leave the selected characters literal in one position"), not the function `humanRepr`
+    itself; the two are tied by ONE computed instance (with nothing left literal they agree on a witness with '@', '%'
+    and U+200B in the user: C18_humanReprLit_std, second conjunct of C18_headline_nonprintable_escape_classified), not by
+    a general theorem.  The classification (i), (ii) is about the six single-component witness URLs
+    (`R5.witnessT`), the listed texts and the demonstration oracle `HumanMore.demo`.
 -/
 end Yarl
